@@ -19,6 +19,9 @@ func genC11(r *Rand, tier string) *Case {
 		// certificate is added to the configured *tls.Config after NewServer
 		c.Server.TLSVia = r.Pick("field", "late-cert")
 	}
+	if c.Server.TLS == "certs" && r.Chance(1, 8) {
+		c.Server.TLSCertValidity = r.Pick("expired", "future")
+	}
 	if r.Chance(1, 5) {
 		c.Server.Auth = "cleartext"
 	}
@@ -381,7 +384,7 @@ func checkC11(x *Exec, c *Case) ([]Violation, bool) {
 func init() {
 	register(&Prop{
 		ID: "C11", Level: "exploration", QuickS: 30, ThoroughS: 480,
-		Rule: "seeded TLS scenarios: server configured without TLSConfig / with an empty TLSConfig / with a certificate; client behaviours: SSLRequest then a real crypto/tls handshake (TLS 1.2 or 1.3) then a generated session (simple and extended queries, failing handlers, Terminate) inside TLS; SSLRequest with a plaintext startup+Query stuffed behind it in the same or in the next segment; SSLRequest twice; a second SSLRequest inside TLS; CancelRequest after the upgrade; peer vanishing after 1-60 handshake bytes; against the certificate-less configs SSLRequest -> 'N' -> fresh plaintext startup, SSLRequest twice, or CancelRequest. The TLS client is a real goroutine and, like the server goroutine, a task of the seeded scheduler; both byte directions are tapped below TLS. Oracle: the answer is exactly one byte ('S' iff certificates), everything the server writes afterwards parses as TLS records and neither tapped direction contains the per-run canary carried by every query text and command tag, the decrypted stream and the callback trace equal those of the same session run in plaintext on an identically configured server, stuffed plaintext never reaches a callback, cancel/odd negotiations get no reply and no callback and the connection is closed, the run terminates; every case is non-trivial; distinct = distinct case content hashes; configuration routes (TLSConfig option, exported field assigned after NewServer, certificate added afterwards); clients that let 50 ms - 1 h of simulated time pass between steps (the transport honours deadlines against the fake clock); variant tls-close-during-command: Server.Close pinned inside a running command of the TLS session, compared with the plaintext equivalent under the same Close",
+		Rule: "seeded TLS scenarios: server configured without TLSConfig / with an empty TLSConfig / with a certificate (1 in 8: expired or not yet valid at the TLS stack's clock - nobody verifies it); client behaviours: SSLRequest then a real crypto/tls handshake (TLS 1.2 or 1.3) then a generated session (simple and extended queries, failing handlers, Terminate) inside TLS; SSLRequest with a plaintext startup+Query stuffed behind it in the same or in the next segment; SSLRequest twice; a second SSLRequest inside TLS; CancelRequest after the upgrade; peer vanishing after 1-60 handshake bytes; against the certificate-less configs SSLRequest -> 'N' -> fresh plaintext startup, SSLRequest twice, or CancelRequest. The TLS client is a real goroutine and, like the server goroutine, a task of the seeded scheduler; both byte directions are tapped below TLS. Oracle: the answer is exactly one byte ('S' iff certificates), everything the server writes afterwards parses as TLS records and neither tapped direction contains the per-run canary carried by every query text and command tag, the decrypted stream and the callback trace equal those of the same session run in plaintext on an identically configured server, stuffed plaintext never reaches a callback, cancel/odd negotiations get no reply and no callback and the connection is closed, the run terminates; every case is non-trivial; distinct = distinct case content hashes; configuration routes (TLSConfig option, exported field assigned after NewServer, certificate added afterwards); clients that let 50 ms - 1 h of simulated time pass between steps (the transport honours deadlines against the fake clock); variant tls-close-during-command: Server.Close pinned inside a running command of the TLS session, compared with the plaintext equivalent under the same Close",
 		Components: []string{
 			"real: Handshake/potentialConnUpgrade/sslUnsupported, crypto/tls server and client (deterministic Rand and Time), the whole serving path on top of the tls.Conn",
 			"stub: raw duplex connection (simulated, tapped, every Read/Write of either party a schedule point), certificate (ed25519, generated in-process from a fixed seed), handler programs",
